@@ -80,7 +80,7 @@ def _gen_op(rng: random.Random, names: Sequence[str], mix: Sequence[str], optnam
 def make_plan(seed: int, tier: str = "quick") -> dict:
     rng = random.Random(seed)
     groups = sorted(pool.GROUPS)
-    n_threads = rng.choice([2, 2, 2, 3, 3, 4])
+    n_threads = rng.choice([2, 2, 2, 2, 3, 3, 4])
     # placement: 55 % one family, 25 % two families, 20 % anything
     r = rng.random()
     if r < 0.55:
@@ -99,19 +99,21 @@ def make_plan(seed: int, tier: str = "quick") -> dict:
     threads = []
     first = _gen_op(rng, names, mix, optnames)
     for t in range(n_threads):
-        k = rng.choice([1, 1, 2, 2, 3, 4])
+        k = rng.choice([1, 1, 1, 2, 2, 3])
         ops = [_gen_op(rng, names, mix, optnames) for _ in range(k)]
         if same_first:
             ops[0] = list(first)
         threads.append(ops)
     # strategy
     r = rng.random()
-    if r < 0.45:
+    if r < 0.35:
         strat = ["uniform", rng.choice([0.002, 0.005, 0.01, 0.02, 0.05, 0.1, 0.2, 0.5])]
-    elif r < 0.70:
+    elif r < 0.55:
         strat = ["pct", rng.choice([1, 2, 3, 4]), rng.choice([500, 2000, 8000, 30000])]
-    elif r < 0.95:
+    elif r < 0.72:
         strat = ["targeted", rng.choice([0.02, 0.1, 0.3, 0.7])]
+    elif r < 0.97:
+        strat = ["lazyinit", rng.choice([0.3, 0.6, 1.0]), rng.choice([0.03, 0.1, 0.3, 1.0])]
     else:
         strat = ["nopreempt"]
     opcode = tier == "thorough" and rng.random() < 0.2
@@ -119,12 +121,12 @@ def make_plan(seed: int, tier: str = "quick") -> dict:
     fault = None
     if rng.random() < 0.3:
         t = rng.randrange(n_threads)
-        fault = {
-            "thread": t,
-            "op": rng.randrange(len(threads[t])),
-            "cb": rng.choice(["*", "*"] + pool.CALLBACK_NAMES),
-            "n": rng.choice([1, 1, 2, 3, 5]),
-        }
+        j = rng.randrange(len(threads[t]))
+        if rng.random() < 0.6:
+            # a fault while idle tests nothing: make the armed operation reach a user callable
+            # during compilation (an aliaser is invoked for every object type)
+            threads[t][j][3] = rng.choice(["camel", "prefix"])
+        fault = {"thread": t, "op": j, "cb": "*", "n": rng.choice([1, 1, 2, 3, 5, 8])}
     return {
         "seed": seed,
         "threads": threads,
